@@ -262,7 +262,7 @@ Proof.
     intros j nj Hj Hm. destruct (Holdnew _ _ Hj) as [Ho|[->| ->]].
     + eapply (charsleaf_old T w w' self c n k); eauto.
     + rewrite Hc' in Hj. injection Hj as <-. cbn in Hm. contradiction.
-    + rewrite Hs' in Hj. injection Hj as <-. reflexivity.
+    + rewrite Hs' in Hj. injection Hj as <-. right. eexists. reflexivity.
   - (* IndexExact *)
     intros m2 x2 Hx2 p i. destruct (N.eq_dec m2 m) as [->|Hne].
     + rewrite (model_at_set_same _ _ _ _ Hmodels _ Hx) in Hx2. injection Hx2 as <-. cbn [set_idents m_idents].
